@@ -297,6 +297,22 @@ def eval_transform(case, drv):
             if abs(s_out - s_in) > (0 if ex else 1e-9) * max(1, abs(s_in)) * (n + 1):
                 prop_ok = False
                 detail["conservation"] = {"col": k, "sum_out": str(s_out), "sum_in": str(s_in)}
+    # a second transform on the SAME grid, same names / dims / shapes, other target_data values (the next time step):
+    # what it returns depends on its own arguments only
+    try:
+        td2 = (target_data.astype(float) + 1.0).rename("theta")
+        bounds2 = bounds + 1.0
+        res2 = grid.transform(phi, "Z", target, target_data=td2, method="conservative").compute()
+        vals2 = res2.transpose("e", "theta").values
+        for k, c in enumerate(cols):
+            mo2 = model_col(drv, c["phi"], bounds2[k].tolist(), bins)
+            if isinstance(mo2, str) or not all(close(x, y, ex) for x, y in zip(vals2[k].tolist(), mo2)):
+                prop_ok = False
+                detail["second_call_on_same_grid"] = {"col": k, "impl": vals2[k].tolist(), "model": str(mo2)[:200]}
+                break
+    except Exception as e:  # noqa: BLE001
+        prop_ok = False
+        detail["second_call_on_same_grid"] = {"refused": exc_kind(e) + ": " + str(e)[:120]}
     return {"corr_ok": corr_ok, "prop_ok": prop_ok,
             "branch": "transform:" + ("centres" if case["on_centres"] else "outer") + (":dask" if case["chunk"] else ""),
             "detail": detail or None}
